@@ -4,12 +4,13 @@
 // forces, random violated states and states projected onto the velocity manifold.
 //
 // Model-compared records (lean/Drivers/C08.lean running C08.loopFD / C08.power at Float):
-//   I loopFD n m fullrank M(n*n) G(m*n) f(n) b(m)     O loopFD udot(n) [lambda(m) when fullrank]
+//   I loopFD n m fullrank M(n*n) G(m*n) f(n) b(m)     O loopFD 1 udot(n) [lambda(m) when fullrank]   (leading 1 = comparison scale floor)
 //       M = calcM, G = calcG (enabled rows only), f = f_applied - f_inertial (from calcResidualForceIgnoringConstraints
 //       at udot=0), b = -calcConstraintAccelerationErrors(udot=0);  implementation: State::getUDot, getMultipliers
-//   I power n m G lambda u                             O power p          (calcConstraintPower)
+//   I power n m G lambda u                             O power 1 p        (calcConstraintPower)
 // Implementation-only predicates (record `I chk <case#> <class>`):
 //   newton     calcResidualForce(applied forces, udot, lambda) == 0                (M udot + ~G lambda + f_inertial = f_applied)
+//              (input class zeroG = constraint Jacobian numerically zero: key zeroG.newton, finding F-C08-1)
 //   udoterr    getUDotErr == 0 for consistent, well-posed sets (consistency decided independently by an SVD of G)
 //   disabled   udot (and lambda when full rank) equal those of a twin system built WITHOUT the disabled constraints
 //   power      on the velocity manifold, all enabled constraints workless: |calcConstraintPower| <= slack(|lambda|,|verr|)
@@ -159,8 +160,12 @@ static void oneCase(uint64_t seed, long caseNo) {
     Vector a0; matter.calcConstraintAccelerationErrors(s, zero, a0);
     Vector b = -a0;
     int rank; bool wellposed, consistent; analyse(G, b, rank, wellposed, consistent);
+    // degenerate input class: every enabled constraint acts between bodies without relative mobility, so that the
+    // constraint Jacobian is zero up to roundoff (|G| <= 1e-10 on O(1) data); the SVD-relative analysis is meaningless there
+    const bool zeroG = m > 0 && mmax(G) <= 1e-10;
+    if (zeroG) { wellposed = false; rank = 0; }
     const bool fullrank = wellposed && rank == m;
-    std::string tag = std::string(wellposed ? (fullrank ? "fullrank" : "redundant") : "illcond") + (consistent ? "" : ".inconsistent") + (anyDisabled ? ".mask" : "");
+    std::string tag = std::string(zeroG ? "zeroG" : wellposed ? (fullrank ? "fullrank" : "redundant") : "illcond") + (consistent ? "" : ".inconsistent") + (anyDisabled ? ".mask" : "");
     vh::D("chk." + icls + "." + tag + ".m" + std::to_string(std::min(m, 12)));
     for (auto& ci : A.cons) vh::D(std::string("type.") + (ci.type == cSpeedCoupler && ci.fn && ci.fn->c == 0 && ci.cq.empty() ? "SpeedCouplerLinear" : consName(ci.type)));
     const double fscale = std::max(1.0, std::max(vmax(feff), mmax(Mm) * vmax(d.udot)));
@@ -168,7 +173,21 @@ static void oneCase(uint64_t seed, long caseNo) {
     // ---- newton: M udot + ~G lambda + f_inertial = f_applied
     {
         Vector res; matter.calcResidualForce(s, mobF, bodyF, d.udot, d.lambda, res);
-        vh::P("newton", icls + ".newton", finite ? vmax(res) / fscale : NAN, 1e-9);
+        vh::P("newton", zeroG ? std::string("zeroG.newton") : icls + ".newton", finite ? vmax(res) / fscale : NAN, 1e-9);
+        if (std::getenv("CEQ_DEBUG") && (!finite || !(vmax(res) / fscale <= 1e-9))) {
+            Vector Mu, Gtl; matter.multiplyByM(s, d.udot, Mu); matter.multiplyByGTranspose(s, d.lambda, Gtl);
+            Vector r2 = Mu + Gtl - feff;
+            std::fprintf(stderr, "case %ld nu=%d m=%d rank=%d wellposed=%d consistent=%d |res|=%g |Mu+Gtl-f|=%g |udot|=%g |lambda|=%g |udoterr|=%g |f|=%g |M|=%g\n",
+                caseNo, nu, m, rank, (int)wellposed, (int)consistent, vmax(res), vmax(r2), vmax(d.udot), vmax(d.lambda), vmax(d.udoterr), vmax(feff), mmax(Mm));
+            for (auto& ci : A.cons) std::fprintf(stderr, "  cons %s cls=%s\n", consName(ci.type), ci.cls.c_str());
+            for (int i = 1; i < M.nb(); ++i) std::fprintf(stderr, " %d:%s<-%d", i, mobName(M.mtype[i]), M.parent[i]);
+            {   Matrix MInv; matter.calcMInv(s, MInv); Matrix Amat = G * MInv * ~G;
+                const double tol = m * SqrtEps * std::sqrt(SqrtEps);
+                FactorQTZ qtz(Amat, tol); Vector ud0 = MInv * feff; Vector rhs = G * ud0 - b; Vector lam2; qtz.solve(rhs, lam2);
+                FactorSVD svd(Amat); Vector sv; svd.getSingularValues(sv);
+                std::cerr << "QTZ rank=" << qtz.getRank() << " rcondEst=" << qtz.getRCondEstimate() << " tol=" << tol << "\nsv(A)=" << sv << "\nlam2=" << lam2 << "\nrhs=" << rhs << "\ndiagA=" << Amat.diag() << std::endl; }
+            std::fprintf(stderr, "\n"); std::cerr << "u=" << s.getU() << "\nq=" << s.getQ() << "\nudot=" << d.udot << "\nlambda=" << d.lambda << "\nres=" << res << std::endl;
+        }
     }
     // ---- acceleration constraints satisfied (consistent, well-posed sets only)
     if (wellposed && consistent) {
@@ -214,11 +233,11 @@ static void oneCase(uint64_t seed, long caseNo) {
         vh::Line L = vh::I("loopFD"); L.i(nu).i(m).i(fullrank ? 1 : 0);
         emitMat(L, Mm); emitMat(L, G); emitVec(L, feff); emitVec(L, b); L.emit();
         std::printf("T 1e-6 1e-9\n");
-        vh::Line O = vh::O("loopFD"); emitVec(O, d.udot); if (fullrank) emitVec(O, d.lambda); O.emit();
+        vh::Line O = vh::O("loopFD"); O.d(1.0); emitVec(O, d.udot); if (fullrank) emitVec(O, d.lambda); O.emit();
         vh::D(std::string("loopFD.") + (fullrank ? "fullrank" : "redundant"));
         vh::Line L2 = vh::I("power"); L2.i(nu).i(m); emitMat(L2, G); emitVec(L2, d.lambda); emitVec(L2, s.getU()); L2.emit();
         std::printf("T 1e-9 1e-9\n");
-        vh::O("power").d(matter.calcConstraintPower(s)).emit();
+        vh::O("power").d(1.0).d(matter.calcConstraintPower(s)).emit();
     }
 }
 
